@@ -203,9 +203,10 @@ def view_state(ex, app=0):
     RN = st["RN"]
     regs = []
     for b, letter in enumerate(BANKS):
+        # read the group's dictionary itself, not through RegisterGroup.__getitem__: an observation
+        # must not fault (or hide a register) when the implementation's index check is what is wrong
         grp = ex._registers[app][RN[letter]]
-        for i in range(16):
-            v = grp[i]
+        for i, v in sorted(grp._register.items()):
             if v is not None:
                 regs.append([b, i, v])
     arrays = sorted([a, list(l)] for a, l in ex._app_arrays[app]._arrays.items())
@@ -213,8 +214,7 @@ def view_state(ex, app=0):
     sregs = []
     for b, letter in enumerate(BANKS):
         grp = shm._registers[RN[letter]]
-        for i in range(16):
-            v = grp[i]
+        for i, v in sorted(grp._register.items()):
             if v is not None:
                 sregs.append([b, i, v])
     sarrays = sorted([a, list(l)] for a, l in shm._arrays._arrays.items())
